@@ -7,23 +7,159 @@ package orderedmap
 //
 // View of a map m: the sequence of pairs (m.order[i], m.records[m.order[i]]), 0 <= i < len(m.order).
 //
-//@ spec wf(m) = m != nil && m.records != nil
-//@     && (forall i: int :: 0 <= i && i < len(m.order) ==> m.records.has(m.order[i]))
-//@     && (forall k: K :: m.records.has(k) ==> (exists i: int @pos :: 0 <= i && i < len(m.order) && m.order[i] == k))
-//@     && (forall i, j: int :: 0 <= i && i < j && j < len(m.order) ==> m.order[i] != m.order[j])
+//@ spec wf(m) = m != nil && m.records != nil && (existsfn pos: K -> int ::
+//@        (forall k: K :: m.records.has(k) ==> 0 <= pos(k) && pos(k) < len(m.order) && m.order[pos(k)] == k)
+//@     && (forall i: int :: 0 <= i && i < len(m.order) ==> m.records.has(m.order[i]) && pos(m.order[i]) == i))
+//
+//@ func New
+//@   property C19
+//@   modifies nothing
+//@   ensures  fresh: result != nil && fresh(result) && result.records != nil && fresh(result.records)
+//@   ensures  empty: len(result.order) == 0 && result.order == nil
+//@   ensures  nokeys: forall k: K :: !result.records.has(k)
+//@   ensures  wf: wf(result) witness pos(k) := 0
+//
+//@ func (*Map).Set
+//@   property C19
+//@   requires wf(orderedMap)
+//@   modifies orderedMap.order, orderedMap.records[key], orderedMap.order[len(orderedMap.order)]
+//@   ghost    had := orderedMap.records.has(key)
+//@   ensures  wf: wf(orderedMap) witness pos(k) := ite(k == key && !had, old(len(orderedMap.order)), skolem("pos", "pre", k))
+//@   ensures  has: forall k: K :: orderedMap.records.has(k) == (old(orderedMap.records.has(k)) || k == key)
+//@   ensures  value: orderedMap.records[key] == value
+//@   ensures  values: forall k: K :: k != key ==> orderedMap.records[k] == old(orderedMap.records[k])
+//@   ensures  len: len(orderedMap.order) == old(len(orderedMap.order)) + b2i(!had)
+//@   ensures  order: forall j: int :: 0 <= j && j < old(len(orderedMap.order)) ==> orderedMap.order[j] == old(orderedMap.order[j])
+//@   ensures  last: !had ==> orderedMap.order[old(len(orderedMap.order))] == key
+//@   ensures  samerecords: orderedMap.records == old(orderedMap.records)
+//@   ensures  base: base(orderedMap.order) == old(base(orderedMap.order)) || fresh(orderedMap.order)
+//
+//@ func (*Map).Get
+//@   property C19
+//@   requires orderedMap != nil
+//@   modifies nothing
+//@   ensures  result == orderedMap.records[key]
+//
+//@ func (*Map).Has
+//@   property C19
+//@   requires orderedMap != nil
+//@   modifies nothing
+//@   ensures  result == orderedMap.records.has(key)
+//
+//@ func (*Map).At
+//@   property C19
+//@   requires wf(orderedMap) && 0 <= index && index < len(orderedMap.order)
+//@   modifies nothing
+//@   ensures  result == orderedMap.records[orderedMap.order[index]]
+//
+//@ func (*Map).Len
+//@   property C19
+//@   requires orderedMap != nil
+//@   modifies nothing
+//@   ensures  result == len(orderedMap.order)
+//
+//@ func (*Map).Values
+//@   property C19
+//@   requires wf(orderedMap)
+//@   modifies nothing
+//@   ensures  len: len(result) == len(orderedMap.order)
+//@   ensures  values: forall j: int :: 0 <= j && j < len(result) ==> result[j] == orderedMap.records[orderedMap.order[j]]
+//@   loop 0:
+//@     invariant sep: fresh(values)
+//@     invariant len: len(values) == $i + 1
+//@     invariant vals: forall j: int :: 0 <= j && j < len(values) ==> values[j] == orderedMap.records[orderedMap.order[j]]
+//
+// Iterate, Map and Filter are expanded at call sites inside the module (inline), so the precondition
+// on the callback below only concerns callers outside the verified code.
+//@ func (*Map).Iterate
+//@   property C19
+//@   inline
+//@   requires orderedMap != nil && callback != nil
+//@   callbacks-modify-nothing
+//@   modifies nothing
+//
+// Map: same keys in the same order; the values are whatever the callback returned.
+//@ func (*Map).Map
+//@   property C19
+//@   inline
+//@   requires wf(orderedMap) && callback != nil
+//@   callbacks-modify-nothing
+//@   modifies nothing
+//@   ensures  wf: wf(result) && fresh(result)
+//@   ensures  len: len(result.order) == len(orderedMap.order)
+//@   ensures  order: forall j: int :: 0 <= j && j < len(result.order) ==> result.order[j] == orderedMap.order[j]
+//@   ensures  has: forall k: K :: result.records.has(k) == orderedMap.records.has(k)
+//@   loop 0:
+//@     invariant wf: wf(newMap)
+//@     invariant sep: fresh(newMap) && fresh(newMap.records) && (newMap.order == nil || fresh(newMap.order))
+//@     invariant len: len(newMap.order) == $i + 1
+//@     invariant order: forall j: int :: 0 <= j && j < len(newMap.order) ==> newMap.order[j] == orderedMap.order[j]
+//@     invariant has: forall k: K :: newMap.records.has(k) == (orderedMap.records.has(k) && skolem("pos", "pre", k) <= $i)
+//
+// Filter: the kept keys are keys of the receiver with the same values, in the same relative order.
+//@ func (*Map).Filter
+//@   property C19
+//@   inline
+//@   requires wf(orderedMap) && callback != nil
+//@   callbacks-modify-nothing
+//@   modifies nothing
+//@   ensures  wf: wf(result) && fresh(result)
+//@   ensures  subset: forall k: K :: result.records.has(k) ==> orderedMap.records.has(k) && result.records[k] == orderedMap.records[k]
+//@   ensures  order: forall a, b: int :: 0 <= a && a < b && b < len(result.order) ==> skolem("pos", "pre", result.order[a]) < skolem("pos", "pre", result.order[b])
+//@   loop 0:
+//@     invariant wf: wf(newMap)
+//@     invariant sep: fresh(newMap) && fresh(newMap.records) && (newMap.order == nil || fresh(newMap.order))
+//@     invariant subset: forall k: K :: newMap.records.has(k) ==> orderedMap.records.has(k) && newMap.records[k] == orderedMap.records[k] && skolem("pos", "pre", k) <= $i
+//@     invariant order: forall a, b: int :: 0 <= a && a < b && b < len(newMap.order) ==> skolem("pos", "pre", newMap.order[a]) < skolem("pos", "pre", newMap.order[b])
 //
 //@ func (*Map).Remove
 //@   property C19 C04
 //@   requires wf(orderedMap)
+//@   modifies orderedMap.order, orderedMap.records[key]
 //@   ghost    p := ite(orderedMap.records.has(key), skolem("pos", "pre", key), -1)
-//@   ensures  wf: wf(orderedMap) witness pos := skolem("pos", "pre", k) - b2i(p >= 0 && skolem("pos", "pre", k) > p)
+//@   ensures  wf: wf(orderedMap) witness pos(k) := skolem("pos", "pre", k) - b2i(p >= 0 && skolem("pos", "pre", k) > p)
 //@   ensures  has: forall k: K :: orderedMap.records.has(k) == (old(orderedMap.records.has(k)) && k != key)
 //@   ensures  values: forall k: K :: k != key ==> orderedMap.records[k] == old(orderedMap.records[k])
 //@   ensures  len: len(orderedMap.order) == old(len(orderedMap.order)) - b2i(p >= 0)
 //@   ensures  order: forall j: int :: 0 <= j && j < len(orderedMap.order) ==> orderedMap.order[j] == old(orderedMap.order[j + b2i(p >= 0 && j >= p)])
 //@   loop 0:
 //@     invariant sep: fresh(newOrder)
-//@     invariant frame: forall j: int :: 0 <= j && j < old(len(orderedMap.order)) ==> orderedMap.order[j] == old(orderedMap.order[j])
 //@     invariant bounds: len(newOrder) == ($i + 1) - b2i(0 <= p && p <= $i)
 //@     invariant prefix: forall j: int :: 0 <= j && j < len(newOrder) && (p < 0 || j < p) ==> newOrder[j] == old(orderedMap.order[j])
 //@     invariant suffix: forall j: int :: 0 <= p && p <= j && j < len(newOrder) ==> newOrder[j] == old(orderedMap.order[j + 1])
+//
+//@ func (*Map).Equal
+//@   property C19
+//@   requires orderedMap != nil && other != nil
+//@   modifies nothing
+//
+// Sort: the keys are permuted (same set, same values, same length); sort.SliceStable is assumed.
+//@ func (*Map).Sort
+//@   property C19
+//@   requires wf(orderedMap) && lessFunc != nil
+//@   callbacks-modify-nothing
+//@   modifies orderedMap.order[*]
+//@   ensures  wf: wf(orderedMap) witness pos(k) := skolem("perminv", "sort", skolem("pos", "pre", k))
+//@   ensures  has: forall k: K :: orderedMap.records.has(k) == old(orderedMap.records.has(k))
+//@   ensures  values: forall k: K :: orderedMap.records[k] == old(orderedMap.records[k])
+//@   ensures  len: len(orderedMap.order) == old(len(orderedMap.order))
+//
+//@ func (*Map).Sort$1
+//@   property C19
+//@   requires orderedMap != nil && lessFunc != nil && 0 <= i && i < len(orderedMap.order) && 0 <= j && j < len(orderedMap.order)
+//@   callbacks-modify-nothing
+//
+// JSON: encoding/json and bytes.Buffer are outside /repo (assumed to write only through the pointers
+// they are given); what is proved here is panic-freedom and, for decoding, that the map stays
+// well-formed and is only extended through Set.
+//@ func (*Map).MarshalJSON
+//@   property C19
+//@   requires wf(orderedMap)
+//
+//@ func (*Map).UnmarshalJSON
+//@   property C19
+//@   requires orderedMap != nil && (orderedMap.records != nil ==> wf(orderedMap))
+//@   requires orderedMap.records == nil ==> len(orderedMap.order) == 0
+//@   ensures  wf: wf(orderedMap)
+//@   loop 0:
+//@     invariant wf: wf(orderedMap)
